@@ -189,7 +189,7 @@ def timekernel_run(eng, SL, fail):
     for sign, z in ((1, b - d), (-1, b - c), (1, a - c), (-1, a - d)):
         if z > 0:
             spec = spec + FPI * sign * F_spec(eng, q, z)
-    ok, m = eng.prove(z3bool(SR.lift(val) == spec), 'timekernel')
+    ok, m = eng.prove_identity(val, spec, 'timekernel')
     if not ok:
         fail('timekernel', 'double_time_integrated_kernel differs from F(b-d)-F(b-c)+F(a-c)-F(a-d) (F = 0 for z <= 0)', m)
     return True
@@ -291,7 +291,7 @@ def closedform_worker(_):
     def body():
         out = []
         for name, lhs, rhs in closedform_identities(eng, SLE):
-            ok, m = eng.prove(z3bool(SR.lift(lhs) == SR.lift(rhs)), 'closedform')
+            ok, m = eng.prove_identity(lhs, rhs, 'closedform')
             out.append((name, ok))
         return out
     try:
